@@ -654,6 +654,17 @@ func (p *Parser) evaluateImports(ctx context) ([]Statement, error) {
 		}
 
 		for {
+			if multiple {
+				// Blank and comment-only lines are allowed within an import group.
+				for p.peek().Type() == lexer.NEWLINE {
+					p.eat()
+				}
+
+				if p.peek().Type() == lexer.CLOSING_ROUND_BRACKET {
+					p.eat()
+					break
+				}
+			}
 			imp, err := p.evaluateImport()
 
 			if err != nil {
